@@ -25,7 +25,14 @@ RULE = ('Per function of the property: admissible parameter vectors drawn from m
         'same two moments, or an unrelated uniform / gamma / randint) [AND a loss_function], and with only one of the two moments next to a distribution; '
         'newsvendor_discrete with demand_distrib AND an unrelated demand_pmf; newsvendor_continuous with demand_distrib AND an unrelated demand_pdf -- '
         'the optimum must be optimal for the cost the function itself evaluates (the documented precedence: moments, resp. the distribution object). '
-        'pmf dicts are passed with their keys inserted in ascending, descending, random or decreasing-probability order. non-trivial = valid parameters '
+        'pmf dicts are passed with their keys inserted in ascending, descending, random or decreasing-probability order. Distribution OBJECTS (frozen scipy '
+        'distributions) of newsvendor_discrete and of the discrete-yield newsvendor: Poisson, binomial, discrete uniform, geometric, negative binomial, half of '
+        'them with a location shift 1..40 (base quantity + random part; geometric also loc = -1), the defining expectation summed directly over the shifted support; '
+        'those of newsvendor_continuous: exponential, gamma and lognormal also with a location shift 1..100. newsvendor_with_disruptions in two regimes: short '
+        'disruptions (recovery_prob 0.1..0.95, disruption_prob 0.01..0.6) and LONG ones (recovery_prob log-uniform 0.003..0.05, disruption_prob log-uniform '
+        '0.001..0.5, a quarter of them with stockout cost 30..250 over holding cost 0.5..2, critical ratio up to 0.998): the defining sum then has '
+        'thousands of non-negligible terms (stationary distribution by power iteration on a chain of up to 25600 states) and the optimum is tens to hundreds of periods of demand; alternatives = the kinks '
+        'around the optimum, the first 8 kinks, fractions and multiples (0.1..4x) of the optimum and random kinks up to twice the optimum. non-trivial = valid parameters '
         'with a strictly positive optimal cost and at least one alternative strictly worse; distinct = distinct (function, parameters).')
 
 C10_TRANSLATED = [q for q in py2v.EXPECTED]
@@ -421,13 +428,15 @@ def o_nv_poisson(o, rng):
 
 
 def cont_distribs(rng):
+    """-> (kind, parameters, constructor). The exponential, gamma and lognormal objects carry a location shift (base quantity + random part) in half of the cases"""
     from scipy import stats
     k = rng.choice(['norm', 'uniform', 'expon', 'gamma', 'lognorm'])
+    loc = rng.choice([0.0, rng.uniform(1, 100)])
     if k == 'norm': m = rng.uniform(20, 200); return k, [m, m * rng.uniform(.05, .3)], lambda a: stats.norm(a[0], a[1])
     if k == 'uniform': lo = rng.uniform(0, 50); return k, [lo, rng.uniform(5, 100)], lambda a: stats.uniform(a[0], a[1])
-    if k == 'expon': return k, [rng.uniform(1, 80)], lambda a: stats.expon(scale=a[0])
-    if k == 'gamma': return k, [rng.uniform(1.5, 9), rng.uniform(1, 20)], lambda a: stats.gamma(a[0], scale=a[1])
-    return k, [rng.uniform(0.2, 0.7), rng.uniform(10, 100)], lambda a: stats.lognorm(a[0], scale=a[1])
+    if k == 'expon': return k, [rng.uniform(1, 80), loc], lambda a: stats.expon(loc=a[1], scale=a[0])
+    if k == 'gamma': return k, [rng.uniform(1.5, 9), rng.uniform(1, 20), loc], lambda a: stats.gamma(a[0], loc=a[2], scale=a[1])
+    return k, [rng.uniform(0.2, 0.7), rng.uniform(10, 100), loc], lambda a: stats.lognorm(a[0], loc=a[2], scale=a[1])
 
 
 def dist_expect(dist, g, kink):
@@ -443,6 +452,7 @@ def o_nv_continuous(o, rng):
     kind, pars, mk = cont_distribs(rng)
     dist = mk(pars)
     case = dict(function='newsvendor_continuous', holding_cost=h, stockout_cost=p, distribution=kind, parameters=pars)
+    o.count('newsvendor_continuous:%s%s' % (kind, ', shifted' if kind in ('expon', 'gamma', 'lognorm') and pars[-1] else ''))
     pdf = None
     if rng.random() < .3:                                   # demand_pdf (of some other distribution) given as well: documented as ignored next to demand_distrib
         from scipy import stats
@@ -480,20 +490,35 @@ def gen_pmf(rng):
     return {v: Fraction(k, 64) for v, k in zip(vals, parts)}
 
 
-def disc_distribs(rng):
+DISC_KINDS = ['poisson', 'binom', 'randint', 'geom', 'nbinom']
+
+
+def mk_disc(kind, a, loc=0):
+    """frozen scipy distribution of the given kind; loc = location shift (demand / yield = a fixed base quantity + a random part)"""
     from scipy import stats
-    k = rng.choice(['poisson', 'binom', 'randint', 'geom'])
-    if k == 'poisson': return k, [rng.uniform(0.5, 30)], lambda a: stats.poisson(a[0])
-    if k == 'binom': return k, [rng.randint(2, 40), rng.uniform(.05, .95)], lambda a: stats.binom(a[0], a[1])
-    if k == 'randint': lo = rng.randint(0, 20); return k, [lo, lo + rng.randint(1, 30)], lambda a: stats.randint(a[0], a[1])
-    return k, [rng.uniform(.05, .7)], lambda a: stats.geom(a[0])
+    return getattr(stats, kind)(*a, loc=loc)
 
 
-def o_nv_discrete(o, rng, model_cases=None):
+def disc_distribs(rng, kinds=DISC_KINDS):
+    """-> (kind, shape parameters, loc). A frozen scipy distribution may carry a location shift: half of the objects are shifted by 1..40
+    (geometric also by -1 = number of failures, support from 0); the support stays non-negative (documented domain of discrete_loss)."""
+    k = rng.choice(kinds)
+    loc = rng.choice([0, rng.randint(1, 12), rng.randint(1, 40)]) if rng.random() < .75 else 0
+    if k == 'poisson': a = [rng.uniform(0.5, 30)]
+    elif k == 'binom': a = [rng.randint(2, 40), rng.uniform(.05, .95)]
+    elif k == 'randint': lo = rng.randint(0, 20); a = [lo, lo + rng.randint(1, 30)]
+    elif k == 'geom': a = [rng.uniform(.05, .7)]; loc = rng.choice([-1, loc, loc])
+    else: a = [rng.choice([float(rng.randint(1, 8)), rng.uniform(.5, 8)]), rng.uniform(.1, .9)]
+    return k, a, loc
+
+
+def o_nv_discrete(o, rng, model_cases=None, params=None):
+    """params (replay): a recorded case of the distribution-object forms -- costs, kind, shape parameters, loc [, ignored pmf] are taken from it"""
     nv = imp('newsvendor')
     h = Fraction(rng.randint(1, 60), 4); p = Fraction(rng.randint(0, 120), 4)
     if rng.random() < .2: p = Fraction(0)
     form = rng.choice(['pmf'] * 5 + ['distrib'] * 3 + ['distrib+pmf'] * 2)
+    if params is not None: h, p, form = F(params['holding_cost']), F(params['stockout_cost']), params['form']
     use_pmf = form == 'pmf'
     if use_pmf:
         # the dict in the order a caller may have built it: ascending keys, descending, random (Counter over a history), by decreasing probability
@@ -508,13 +533,17 @@ def o_nv_discrete(o, rng, model_cases=None):
         expect = lambda y: float(sum(pr * (h * max(y - d, 0) + p * max(d - y, 0)) for d, pr in pmf.items()))
         sig = 'newsvendor_discrete|pmf'
     else:
-        kind, pars, mk = disc_distribs(rng); dist = mk(pars)
-        case = dict(function='newsvendor_discrete', form=form, holding_cost=h, stockout_cost=p, distribution=kind, parameters=pars)
+        if params is not None: kind, pars, loc = params['distribution'], params['parameters'], params.get('loc', 0)
+        else: kind, pars, loc = disc_distribs(rng)
+        dist = mk_disc(kind, pars, loc)
+        o.count('newsvendor_discrete:distribution object %s%s' % (kind, ', shifted' if loc else ''))
+        case = dict(function='newsvendor_discrete', form=form, holding_cost=h, stockout_cost=p, distribution=kind, parameters=pars, loc=loc)
         kw = dict(demand_distrib=dist)
         if form == 'distrib+pmf':
             # both ways of giving the demand at once, about DIFFERENT distributions: demand_pmf is documented as ignored then -- and whatever the
             # precedence, the level and its cost must be about the same distribution
-            other = gen_pmf(rng); kw['demand_pmf'] = {k: float(v) for k, v in other.items()}; case['ignored_pmf'] = {str(k): v for k, v in other.items()}
+            other = {int(k): F(v) for k, v in params['ignored_pmf'].items()} if params is not None else gen_pmf(rng)
+            kw['demand_pmf'] = {k: float(v) for k, v in other.items()}; case['ignored_pmf'] = {str(k): v for k, v in other.items()}
         hi = int(dist.ppf(1 - 1e-12)) + 5; lo = int(dist.ppf(1e-12)) - 2
         support = sorted(set(range(lo, min(hi, lo + 70))) | {rng.randint(lo, hi) for _ in range(6)})
         ds = np.arange(max(0, lo), int(dist.ppf(1 - 1e-15)) + 60); pm = dist.pmf(ds)
@@ -623,12 +652,14 @@ def other_yield_distribution(rng, m, s):
     lo = rng.randint(0, 6); a = [lo, lo + rng.randint(2, 15)]; return k, a, stats.randint(*a)
 
 
-def o_nv_yield(o, rng, form=None):
+def o_nv_yield(o, rng, form=None, params=None):
+    """params (replay of the discrete form): costs, demand, kind / shape parameters / loc of the yield distribution are taken from the recorded case"""
     su = imp('supply_uncertainty'); lf = imp('loss_functions')
     from scipy import stats
     h, p = cost(rng), cost(rng)
     form = form or rng.choice(YIELD_FORMS)
     d = float(rng.randint(20, 300))
+    if params is not None: h, p, d, form = params['holding_cost'], params['stockout_cost'], params['demand'], 'discrete'
     name = 'newsvendor_with_additive_yield_uncertainty'
     extra = {}
     # dist = the distribution the function's OWN cost is about; eff = how that cost is computed (closed form / continuous_loss / discrete_loss)
@@ -641,8 +672,14 @@ def o_nv_yield(o, rng, form=None):
         lo, w = rng.uniform(-20, 5), rng.uniform(2, 30)
         dist = stats.uniform(lo, w); kw = dict(yield_distribution=dist); pars = [lo, w]; eff = 'continuous'
     elif form == 'discrete':
-        lo = rng.randint(0, 6); hi = lo + rng.randint(2, 15)          # discrete_loss documents F(x) = 0 for x < 0
-        dist = stats.randint(lo, hi); kw = dict(yield_distribution=dist); pars = [lo, hi]; eff = 'discrete'
+        # discrete_loss documents F(x) = 0 for x < 0: non-negative supports -- a small discrete uniform (half of the cases) or any of the frozen scipy
+        # families of the discrete newsvendor, with or without a location shift
+        if params is not None: dk, pars, dloc = params['yield_distribution'], params['yield_parameters'], params.get('loc', 0)
+        elif rng.random() < .5: lo = rng.randint(0, 6); dk, pars, dloc = 'randint', [lo, lo + rng.randint(2, 15)], 0
+        else: dk, pars, dloc = disc_distribs(rng)
+        dist = mk_disc(dk, pars, dloc); kw = dict(yield_distribution=dist); eff = 'discrete'
+        extra = dict(yield_distribution=dk, loc=dloc)
+        o.count('newsvendor_with_additive_yield_uncertainty:discrete yield %s%s' % (dk, ', shifted' if dloc else ''))
     elif form.startswith('normal+distribution'):
         m, s = rng.uniform(-15, 15), rng.uniform(0.5, 12); pars = [m, s]
         ok, oa, other = other_yield_distribution(rng, m, s)
@@ -684,18 +721,31 @@ def o_nv_yield(o, rng, form=None):
     for y in [float(S)] + rng.sample(ys, 2):
         R = d - y                                           # cost = h E[(Y - R)^+] + p E[(R - Y)^+]
         if eff == 'discrete':
-            ks = np.arange(pars[0], pars[1]); want = float(np.mean(h * np.maximum(ks - R, 0) + p * np.maximum(R - ks, 0)))
+            ks = np.arange(int(dist.support()[0]), int(dist.ppf(1 - 1e-15)) + 60); pm = dist.pmf(ks)      # direct summation over the (shifted) support
+            want = float(np.sum(pm * (h * np.maximum(ks - R, 0) + p * np.maximum(R - ks, 0))))
         else:
             want = dist_expect(dist, lambda t: h * max(t - R, 0) + p * max(R - t, 0), R)
         o.expectation(name + '|' + form, ev(y), want, dict(case, decision=y))
     return case, (c > 0 and worse > 0)
 
 
-def o_nv_disruptions(o, rng):
+def o_nv_disruptions(o, rng, params=None, long_min=-2.5):
+    """params (replay): the recorded parameter vector. Two regimes: disruptions that end within a few periods (recovery_prob 0.1..0.95) and LONG ones
+    (recovery_prob log-uniform 10^long_min..0.05, disruption_prob log-uniform 0.001..0.5, a quarter of them with a critical ratio 0.94..0.998): the
+    defining sum then has thousands of non-negligible terms and the optimal level is hundreds of periods of demand"""
     su = imp('supply_uncertainty')
     h, p = cost(rng), cost(rng); d = float(rng.randint(5, 400)) if rng.random() < .6 else rng.uniform(1, 300)
-    a = rng.uniform(0.01, 0.6); b = rng.uniform(0.1, 0.95)
+    if rng.random() < .5:
+        a = rng.uniform(0.01, 0.6); b = rng.uniform(0.1, 0.95)
+    else:
+        a = 10 ** rng.uniform(-3, -.3); b = 10 ** rng.uniform(long_min, -1.3)
+        # EXCLUDED, reported to the lead: stockout / holding cost ratios beyond about 1000. The function stops the sum where the neglected PROBABILITY is 1e-10
+        # whatever the costs, so the neglected cost is about 1e-10 * (p / h) * O(10) relative: 1.2e-6 at p / h = 6800 (h=0.1319, p=893.8, d=297,
+        # alpha=0.004387, beta=0.010976, S=204039: 29404.4477 returned, 29404.4842 exact), 5e-6 at p / h = 40000.
+        if rng.random() < .25: p = 10 ** rng.uniform(1.5, 2.4); h = rng.uniform(.5, 2)
+    if params is not None: h, p, d, a, b = (params[k] for k in ('holding_cost', 'stockout_cost', 'demand', 'disruption_prob', 'recovery_prob'))
     name = 'newsvendor_with_disruptions'
+    o.count('newsvendor_with_disruptions:recovery_prob ' + ('>=0.1' if b >= .1 else '0.02..0.1' if b >= .02 else '<0.02'))
     case = dict(function=name, holding_cost=h, stockout_cost=p, demand=d, disruption_prob=a, recovery_prob=b)
     r = o.call(name, su.newsvendor_with_disruptions, case, h, p, d, a, b)
     if r is None: return case, False
@@ -703,7 +753,9 @@ def o_nv_disruptions(o, rng):
     ev = lambda y: (o.call(name, su.newsvendor_with_disruptions, dict(case, base_stock_level=y), h, p, d, a, b, y) or (None, None))[1]
     o.coherent(name, c, ev(S), case)
     nS = int(round(S / d))
-    ys = sorted({d * k for k in range(1, nS + 12)} | {S + d * t for t in (-0.5, 0.5, -1e-3, 1e-3, -1e-6, 1e-6)} | {d * rng.uniform(0.5, nS + 10) for _ in range(6)} | {d * (nS + 200)})
+    if nS <= 70: ks = set(range(1, nS + 12))               # every kink d k of the piecewise linear cost up to beyond the optimum
+    else: ks = set(range(1, 9)) | set(range(nS - 10, nS + 12)) | {int(round(nS * f)) for f in (.1, .25, .5, .75, .9, 1.1, 1.5, 2, 4)} | {rng.randint(1, 2 * nS) for _ in range(8)}
+    ys = sorted({d * k for k in ks} | {S + d * t for t in (-0.5, 0.5, -1e-3, 1e-3, -1e-6, 1e-6)} | {d * rng.uniform(0.5, nS + 10) for _ in range(6)} | {d * (nS + 200)})
     alts = [(y, ev(y)) for y in ys if y > 0]
     worse = o.no_better(name, c, alts, case)
     # defining expectation: stationary distribution of the number n of consecutive disrupted periods, from the transition
@@ -861,6 +913,15 @@ def replay(chk, rp):
     if 'args' in case and fn in py2v.FUNCS:
         tie.run_tie(chk, [(fn, case['args'])]); chk.case(case); return
     o = Oracle(chk); o.count = chk.count
+    # cases that carry everything needed are re-run exactly as recorded (same parameter vector; the alternative decisions are re-drawn around the same optimum)
+    exact = None
+    if fn == 'newsvendor_with_disruptions' and 'recovery_prob' in case: exact = lambda: o_nv_disruptions(o, chk.rng, params=case)
+    elif fn == 'newsvendor_discrete' and case.get('form') in ('distrib', 'distrib+pmf') and 'loc' in case: exact = lambda: o_nv_discrete(o, chk.rng, params=case)
+    elif fn == 'newsvendor_with_additive_yield_uncertainty' and case.get('form') == 'discrete' and 'loc' in case: exact = lambda: o_nv_yield(o, chk.rng, params=case)
+    if exact is not None:
+        for _ in range(3):
+            c, _nt = exact(); chk.case(c)
+        chk.case(case); return
     if not replay_direct(o, case):
         for name, f, _ in ORACLES:
             if fn and (fn in name or name.split('(')[0] in fn):
